@@ -823,6 +823,12 @@ func (vc *VC) specAppliesHere(spec *FuncSpec) bool {
 // verification (the first of the alternatives whose only_for restriction
 // admits it).
 func (vc *VC) calleeSpec(name string) *FuncSpec {
+	// an instantiated generic function is looked up under its generic name
+	if i := strings.Index(name, "["); i > 0 && strings.HasSuffix(name, "]") {
+		if s := vc.calleeSpec(name[:i]); s != nil {
+			return s
+		}
+	}
 	if s := vc.Eng.Spec.Funcs[name]; s != nil && vc.specAppliesHere(s) {
 		return s
 	}
